@@ -251,6 +251,7 @@ type Inst struct {
 	// one-second strict timeouts would otherwise inject wall-clock-dependent
 	// faults on a loaded machine.
 	HonorCtx bool
+	cache    string // private cache path override (LogEnv.LoadCache)
 }
 
 func NewInst(w *World, name string) *Inst {
